@@ -99,6 +99,41 @@ def clause_receive_guards(prog, rep, scope):
                           "state-changing call %s can run before the commit was authorised" % x.name, x.loc())
 
 
+def unauthenticated_rollbacks(prog):
+    """rollbacks on the receive path that are decided before the incoming commit was authenticated / authorised: the call to
+    EpochSnapshotManager::rollback_to_epoch is not success-dominated (in any calling context below process_message) by a commit
+    guard nor by a successful MlsGroup::process_message of the candidate.  Returns [(fn, call, chain)]."""
+    core = K.core_scope(prog)
+    roots = prog.find(adt="MDK", name="process_message", crate="mdk_core")
+    scope = set(p for p in prog.reachable(roots) if p in core)
+    guards = A.variant_guard_fns(prog, "Error", "CommitFromNonAdmin")
+    out = []
+    for p in sorted(scope):
+        f = prog.fns[p]
+        for c in f.live_calls():
+            if c.name == "rollback_to_epoch" and last_seg(c.self_adt) == "EpochSnapshotManager":
+                ga = A.GuardAnalysis(prog, lambda x: any(t.path in guards for t in prog.call_targets(x)), K.api_boundary, core, mode="success")
+                ok, chain = ga.site_ok(f, c.bb)
+                if not ok:
+                    out.append((f, c, chain))
+    return out
+
+
+def clause_rollback_authenticated(prog, rep, rule, prefix=""):
+    rbs = prog.all_calls(lambda c: c.name == "rollback_to_epoch" and last_seg(c.self_adt) == "EpochSnapshotManager", crates=("mdk_core",))
+    rep.floor(rule, "EpochSnapshotManager::rollback_to_epoch call sites", len([c for c in rbs if not c.fn.is_test_like()]), 1)
+    bad = unauthenticated_rollbacks(prog)
+    for f, c, chain in bad:
+        rep.violation(rule, "%s%s/rollback-before-authorisation" % (prefix, prog.fns.get(f.root, f).label()),
+                      "the group is rolled back on the strength of the wrapper's timestamp and id alone, before the candidate commit was "
+                      "decrypted, authenticated or authorised: any kind-445 event carrying a handshake message of an already left epoch with an "
+                      "earlier created_at (e.g. the applied commit re-wrapped by a member removed since) rolls the receiver back; when the "
+                      "candidate is then refused, nothing restores the state, the applied commit's record is invalidated and the receiver "
+                      "stays behind for good", c.loc(), chain)
+    if not bad:
+        rep.ok(rule, "%srollback-before-authorisation" % prefix, "every rollback is preceded by a successful authorisation of the candidate commit")
+
+
 def clause_decision(prog, rep):
     n = 0
     pred_fns = []
@@ -447,8 +482,10 @@ def run(ctx, rep):
     rep.clause("C05.3 proposals are queued only on the Add/Remove arms; auto-commit only for Remove && self-remove && admin receiver")
     rep.clause("C05.4 sender side: add/remove/update-extensions commits are built only on the true side of the local admin test")
     rep.clause("C05.5 commit builders that consume the whole proposal store must be preceded by evidence that nothing foreign is in it")
+    rep.clause("C05.7 a refused commit leaves the group as it was also on the error path: no rollback is decided before the candidate commit was authorised (known finding F16)")
     rep.not_decided = "value-level correctness of the admin set computation; validation performed inside OpenMLS"
     clause_receive_guards(prog, rep, scope)
+    clause_rollback_authenticated(prog, rep, "rejected-commit-no-effect")
     preds = clause_decision(prog, rep)
     clause_whitelist(prog, rep, preds)
     clause_proposals(prog, rep, scope)
